@@ -18,7 +18,9 @@ warnings.filterwarnings("ignore")
 THEOREMS = ["Yaw.C11.sparse_roundtrip", "Yaw.C11.sparse_zero", "Yaw.C11.members_roundtrip",
             "Yaw.C11.config_dict_roundtrip", "Yaw.C11.edges_regenerate", "Yaw.C11.glue_pinned",
             "Yaw.C11.fromSparse_mem", "Yaw.C11.fromSparse_not_mem",
-            "Yaw.C11.write_sites_truncate", "Yaw.C11.result_writers_present"]
+            "Yaw.C11.write_sites_truncate", "Yaw.C11.result_writers_present",
+            "Yaw.C11Fmt.roundHE_err", "Yaw.C11Fmt.keep_le", "Yaw.C11Fmt.keep_err", "Yaw.C11Fmt.keep_int_part", "Yaw.C11Fmt.keep_idem",
+            "Yaw.C11Fmt.fmt_precision", "Yaw.C11Fmt.fmt_flags"]
 RULE = ("CorrFunc through HDF5 for all 7 member subsets x auto/cross x counts incl. negative, sparse and all-zero "
         "arrays (== and identical sample()); the stored patch_pairs / binned_counts datasets are compared with the Lean "
         "sparse model; Configuration through YAML for every method / closed side / unit / scalar and list scales / "
@@ -35,7 +37,7 @@ def run(prop, tier, seed, replay):
     from yaw.coordinates import AngularCoordinates, AngularDistances
 
     ck = Check(prop, tier, seed, kernels=["k_persist", "k_config"], theorems=THEOREMS,
-               lean_modules=["YawVerif.Props.C11"], rule=RULE,
+               lean_modules=["YawVerif.Props.C11", "YawVerif.Props.C11Fmt"], rule=RULE,
                assumptions=["h5py / PyYAML / np.loadtxt return what was stored (float repr round-trips)"])
     ck.translate()
     ck.lean_check()
@@ -187,12 +189,50 @@ def run(prop, tier, seed, replay):
                     and np.array_equal(back.center.data, meta.center.data)
                     and np.array_equal(back.radius.data, meta.radius.data)):
                 ck.add_violation("patch metadata read back from YAML differ", {"kind": "meta", "meta": str(meta)})
+        # ---- the fixed-width formatter on single values: what is written (read back exactly) vs the Lean model, and the
+        #      documented precision; carries (9.99999999996), ties of the decimal rounding, every magnitude, both signs
+        from yaw.utils.misc import format_float_fixed_width
+        specials = [0.0, -0.0, 1 / 2048, 9.99999999996, 99.999999999999, 0.99999999995, 99999999.5, 123456789.987, 1e9, 12345678901.5,
+                    1e-11, 4.9e-11, 5.1e-11, -9.99999999996, -1 / 2048, 0.1, -0.1, 1e15, 2.5e-8, 12345678.9999999]
+        for i in range(150 if tier == "quick" else 2000):
+            if i < len(specials):
+                v = specials[i]
+            else:
+                v = rng.uniform(-1, 1) * 10.0 ** rng.randrange(-12, 13)
+                if i % 7 == 0:
+                    v = float(f"{v:.{rng.randrange(0, 12)}f}") + rng.choice([0.0, 5e-11, -5e-11])
+            txt = format_float_fixed_width(v, 10)
+            try:
+                back = Fraction(txt.strip().rstrip(".") or "0")
+            except ValueError:
+                ck.add_violation(f"format_float_fixed_width({v!r}, 10) = {txt!r} is not a number", {"kind": "fmt", "value": v})
+                continue
+            ck.case(None, ("fmt", v))
+            ck.count("fmt:digits=%d" % len(str(int(abs(v)))))
+            d = len(str(int(abs(back))))
+            bound = (Fraction(10) ** (d - 8) if d <= 8 else Fraction(1)) + Fraction(1, 10 ** 10)
+            if len(txt) != max(10, len(txt.split(".")[0])) and len(txt) != 10:
+                ck.add_violation(f"format_float_fixed_width({v!r}, 10) = {txt!r} has width {len(txt)}", {"kind": "fmt", "value": v})
+            if abs(back - to_frac(v)) >= bound:
+                ck.add_violation(f"format_float_fixed_width({v!r}, 10) = {txt!r}: off by {float(abs(back - to_frac(v)))}, the format "
+                                 f"promises better than {float(bound)}", {"kind": "fmt", "value": v})
+            reqs.append(f"fm{i} fmt 10 {fr(v)}")
+            expect.append(("fmt", (back, v, txt)))
+        for sv, want in ((float("nan"), "       nan"), (float("inf"), "       inf"), (float("-inf"), "      -inf")):
+            if format_float_fixed_width(sv, 10) != want:
+                ck.add_violation(f"format_float_fixed_width({sv}, 10) = {format_float_fixed_width(sv, 10)!r}, expected {want!r}",
+                                 {"kind": "fmt", "value": str(sv)})
     finally:
         C.remove(root)
     ans = ck.driver("GenPersist", reqs)
     if ans is not None:
         for (kind, obs), a in zip(expect, ans):
             ck.count(f"tie:{kind}")
+            if kind == "fmt":
+                if Fraction(a) != obs[0]:
+                    ck.add_tie_break("value written by the fixed-width formatter vs Lean model",
+                                     {"value": obs[1], "written": obs[2], "model": a})
+                continue
             if kind == "members":
                 names = sorted(t.split("=")[0] for t in a.split("|")[1].split())
                 if names != obs:
